@@ -267,46 +267,60 @@ theorem copy_headers_range_matches_source :
 
 /-! ### Glue audit: every other source of nondeterminism around the sorter
 
-`Gen.adapterSortCalls` lists every sort call of caddyconfig/** and modules/**/caddyfile.go with the expressions its
-comparator returns; `Gen.adapterOutsideInputs` lists every read of the environment, the clock, randomness, a
+`Gen.adapterSortCalls` lists every sort call of caddyconfig/** and modules/**/caddyfile.go with the sort function, the
+slice sorted and WHAT ITS COMPARATOR READS besides its own parameters and locals (captured variables and package-level
+variables, followed through every same-package function the comparator calls: the fact is the same whether the
+comparator is a closure, a named function or any extract-function / inline rewrite of either); `Gen.adapterOutsideInputs` lists every read of the environment, the clock, randomness, a
 directory listing, every maps.Keys / maps.Values and every `go` statement there.  Both are regenerated from /repo on
-every run; the theorems below pin them, so a new comparator sort, a changed comparator, a goroutine or a clock read
-in the adapter makes the build fail until it is classified here. -/
+every run; the theorems below pin them, so a new comparator sort, a comparator that starts reading
+anything besides the slice it sorts (a counter, a map, a package variable), a stable sort made unstable, a goroutine or a
+clock read in the adapter makes the build fail until it is classified here.  (What a comparator COMPUTES is not pinned
+by text: sortRoutes' comparator is Model.less under the `sort` / `site` correspondence; the others are under the oracle streams.) -/
 
-/-- the comparator sorts, each with: the comparator as written, where the ORDER OF ITS INPUT comes from, and why ties
+/-- the comparator sorts, each with: what the comparator reads (for all six: the slice being sorted — through the
+captured variable that holds it — and, for sortRoutes, the directive-position table built just above from directiveOrder;
+no other captured or package-level state), where the ORDER OF ITS INPUT comes from, and why ties
 cannot make the result vary.  All six take their input in the order of the text (or in an order fixed by an earlier
 plain sort); none takes it from a map.  Five are `sort.SliceStable` (ties keep the input order); the one unstable
 `sort.Slice` (serverOpts) runs a deterministic algorithm on a deterministic input. -/
 def comparatorSortClassification : List (String × String × String × String) := [
   ("caddyconfig/httpcaddyfile/directives.go:sortRoutes", "routes",
-   "dirPositions[iDir]<dirPositions[jDir] | false | false | iPathLen<jPathLen | iPathLen>jPathLen | len(iRoute.MatcherSetsRaw)>0&&len(jRoute.MatcherSetsRaw)==0 | !sortByPath | sortByPath",
+   "reads: dirPositions,routes",
    "input: the directives of one block in written order; stable; the comparator is Model.less (not a strict weak order: known finding over-20-routes; Stable.lean runs the library's algorithm)"),
   ("caddyconfig/httpcaddyfile/httptype.go:evaluateGlobalOptionsBlock", "serverOpts",
-   "len(serverOpts[i].ListenerAddress)>len(serverOpts[j].ListenerAddress)",
+   "reads: serverOpts",
    "input: the `servers` options in written order; UNSTABLE sort, key = address length (not injective): ties are placed by a deterministic algorithm from a deterministic input; ServerOpts.lean, op sopts, rename oracle (24 adaptations)"),
   ("caddyconfig/httpcaddyfile/httptype.go:serversFromPairings", "p.serverBlocks",
-   "false | true | jWildcardHost&&!iWildcardHost | len(iLongestPath)>len(jLongestPath) | specificity(iLongestHost)>specificity(jLongestHost)",
+   "reads: p",
    "input: the site blocks of one pairing in written order (consolidateAddrMappings keeps it); stable; oracle streams perm / site / dadapt"),
   ("caddyconfig/httpcaddyfile/httptype.go:serversFromPairings", "errorSubrouteVals",
-   "false | false | true",
+   "reads: errorSubrouteVals",
    "input: the handle_errors blocks of one site in written order; stable; corpus f19-empty-handle-errors, adapt streams"),
   ("caddyconfig/httpcaddyfile/httptype.go:consolidateConnPolicies", "cps",
-   "cps[j].MatchersRaw==nil&&cps[i].MatchersRaw!=nil",
+   "reads: cps",
    "input: policies appended site block by site block (order fixed above); stable; two classes only; dadapt merge shapes"),
   ("caddyconfig/httpcaddyfile/tlsapp.go:consolidateAutomationPolicies", "aps",
-   "true | false | len(aps[i].SubjectsRaw)>len(aps[j].SubjectsRaw)",
+   "reads: aps",
    "input: policies appended pairing by pairing (addresses sorted) and site block by site block; stable; dadapt merge shapes")]
 
 set_option maxRecDepth 100000 in
 /-- every sort call of the adapter is either a plain sort of strings (`sort.Strings` / `slices.Sort`: the key is the
 element itself, total and injective — `sortByKey_perm_invariant` applies whatever order the input had) or one of the six
-classified comparator sorts, with exactly the comparator written there -/
+classified comparator sorts, whose comparator reads exactly the variables written there -/
 theorem adapter_sort_calls_matches_source :
     Gen.adapterSortCalls.all (fun r =>
       ((r.2.1 == "sort.Strings" || r.2.1 == "slices.Sort") && r.2.2.2 == "") ||
       comparatorSortClassification.any (fun c => c.1 == r.1 && c.2.1 == r.2.2.1 && c.2.2.1 == r.2.2.2)) = true
     ∧ comparatorSortClassification.all (fun c =>
         Gen.adapterSortCalls.any (fun r => c.1 == r.1 && c.2.1 == r.2.2.1 && c.2.2.1 == r.2.2.2)) = true := by
+  decide
+
+/-- what the order-insensitivity theorems take from the source, whatever the comparator is spelled as: sortRoutes calls
+`sort.SliceStable` (the algorithm of Stable.lean; stability is what sort_cross_kind_invariant uses), exactly once, on
+`routes`, and its comparator — wherever its code lives — reads nothing but that slice and the directive-position table -/
+theorem sortRoutes_call_matches_source :
+    Gen.adapterSortCalls.filter (fun r => r.1 == "caddyconfig/httpcaddyfile/directives.go:sortRoutes") =
+      [("caddyconfig/httpcaddyfile/directives.go:sortRoutes", "sort.SliceStable", "routes", "reads: dirPositions,routes")] := by
   decide
 
 /-- the only unstable sort of the adapter is the one over the `servers` options -/
